@@ -296,6 +296,126 @@ end Boario.Gen
 """
 
 
+# ------------------------------------------------------------------ column slices of the demand matrix
+
+DIM_NAMES = {"n_regions": "m", "n_sectors": "n", "n_fd_cat": "k", "_n_rebuilding_events": "nb"}
+ID_NAMES = {"ev_id", "_rebuild_id"}
+# functions whose column arithmetic addresses the combined demand / delivery matrix
+SLICE_FUNCS = [
+    ("model_base", "ARIOBaseModel", ["_chg_events_number", "intermediate_demand", "final_demand", "rebuild_demand",
+                                     "rebuild_demand_house", "rebuild_demand_indus", "rebuild_prod_indus",
+                                     "rebuild_prod_house", "rebuild_prod_indus_event", "rebuild_prod_house_event",
+                                     "distribute_production"]),
+    ("simulation", "Simulation", ["update_rebuild_demand"]),
+]
+
+
+class Untranslatable(Exception):
+    pass
+
+
+def local_assignments(fn):
+    """names assigned exactly once in the function by a plain `name = expr`"""
+    seen = {}
+    for node in ast.walk(fn):
+        if isinstance(node, ast.Assign) and len(node.targets) == 1 and isinstance(node.targets[0], ast.Name):
+            seen.setdefault(node.targets[0].id, []).append(node.value)
+        elif isinstance(node, (ast.AugAssign, ast.AnnAssign)) and isinstance(getattr(node, "target", None), ast.Name):
+            seen.setdefault(node.target.id, []).append(None)
+    return {k: v[0] for k, v in seen.items() if len(v) == 1 and v[0] is not None}
+
+
+def nat_expr(e, local, depth=0):
+    """Python integer expression over the dimensions -> Lean `Nat` expression over (m n k nb id)"""
+    if depth > 8:
+        raise Untranslatable("recursion")
+    if isinstance(e, ast.Constant) and isinstance(e.value, int) and not isinstance(e.value, bool) and e.value >= 0:
+        return str(e.value)
+    if isinstance(e, ast.BinOp) and isinstance(e.op, (ast.Add, ast.Mult)):
+        op = "+" if isinstance(e.op, ast.Add) else "*"
+        return f"({nat_expr(e.left, local, depth)} {op} {nat_expr(e.right, local, depth)})"
+    if isinstance(e, ast.Attribute):
+        if e.attr in DIM_NAMES and attr_chain(e) in (f"self.{e.attr}", f"self.model.{e.attr}"):
+            return DIM_NAMES[e.attr]
+        if e.attr in ID_NAMES and isinstance(e.value, ast.Name):
+            return "id"
+    if isinstance(e, ast.Name):
+        if e.id in ID_NAMES:
+            return "id"
+        if e.id in local:
+            return nat_expr(local[e.id], local, depth + 1)
+    raise Untranslatable(ast.unparse(e))
+
+
+def slice_bound(e, local):
+    if e is None:
+        return "none"
+    try:
+        return f"some {nat_expr(e, local)}"
+    except Untranslatable as u:
+        # an identifier that does not exist: the generated file does not compile, nothing passes by default
+        return f"some (untranslatable_expression {lstr(str(u))})"
+
+
+def fn_label(cls, f):
+    kind = ""
+    for d in f.decorator_list:
+        t = ast.unparse(d)
+        if t == "property":
+            kind = ".getter"
+        elif t.endswith(".setter"):
+            kind = ".setter"
+    return f"{cls}.{f.name}{kind}"
+
+
+def gen_slices(trees):
+    rows, shapes = [], []
+    for mod, cls, names in SLICE_FUNCS:
+        c = find_class(trees[mod], cls)
+        for f in c.body:
+            if not isinstance(f, ast.FunctionDef) or f.name not in names:
+                continue
+            local = local_assignments(f)
+            label = fn_label(cls, f)
+            idx = 0
+            for node in ast.walk(f):
+                if (isinstance(node, ast.Subscript) and isinstance(node.slice, ast.Tuple) and len(node.slice.elts) == 2
+                        and isinstance(node.slice.elts[1], ast.Slice)):
+                    row_sel = node.slice.elts[0]
+                    full_rows = isinstance(row_sel, ast.Slice) and row_sel.lower is None and row_sel.upper is None and row_sel.step is None
+                    sl = node.slice.elts[1]
+                    base = attr_chain(node.value) or ast.unparse(node.value)
+                    step = "true" if sl.step is None else "false"
+                    rows.append(f"  ⟨{lstr(label)}, {idx}, {lstr(base)}, {'true' if full_rows else 'false'}, {step}, "
+                                f"fun m n k nb id => {slice_bound(sl.lower, local)}, fun m n k nb id => {slice_bound(sl.upper, local)}⟩")
+                    idx += 1
+                # widths: second component of `np.zeros(shape=(rows, cols))`
+                if (isinstance(node, ast.Call) and attr_chain(node.func) == "np.zeros"):
+                    for kw in node.keywords:
+                        if kw.arg == "shape" and isinstance(kw.value, ast.Tuple) and len(kw.value.elts) == 2:
+                            shapes.append(f"  ⟨{lstr(label)}, fun m n k nb id => {slice_bound(kw.value.elts[0], local)}, "
+                                          f"fun m n k nb id => {slice_bound(kw.value.elts[1], local)}⟩")
+    return f"""/- GENERATED by harness/translate.py from boario/model_base.py and boario/simulation.py: every column
+   slice `base[:, lo:hi]` and every `np.zeros(shape=(rows, cols))` of the functions that address the combined
+   demand / delivery matrix, as functions of (n_regions, n_sectors, n_fd_cat, _n_rebuilding_events, event id).
+   Do not edit. -/
+import Boario.GenTypes
+
+namespace Boario.Gen
+set_option linter.unusedVariables false
+
+def colSlices : List ColSlice := [
+{(',' + chr(10)).join(rows)}
+]
+
+def zerosShapes : List ZerosShape := [
+{(',' + chr(10)).join(shapes)}
+]
+
+end Boario.Gen
+"""
+
+
 def regenerate():
     GEN.mkdir(parents=True, exist_ok=True)
     trees = {}
@@ -305,6 +425,7 @@ def regenerate():
         "NextStep.lean": gen_next_step(trees["simulation"]),
         "RecordSpecs.lean": gen_record_specs(trees["simulation"]),
         "Defaults.lean": gen_defaults(trees),
+        "Slices.lean": gen_slices(trees),
     }
     changed = []
     for name, text in outs.items():
